@@ -124,6 +124,12 @@ ChainIsConjunction ==
   (e.k = "cmp" /\ Len(e.ops) = 2) =>
      LET conj == And2(Cmp1(e.ops[1], e.left, e.rights[1]), Cmp1(e.ops[2], e.rights[1], e.rights[2])) IN
      V(conj, ei) = val
+\* x == y  is  not (x != y);  for numbers it is also  x <= y and x >= y  (no tolerance anywhere, or the same everywhere)
+EqNeComplement ==
+  (e.k = "cmp" /\ Len(e.ops) = 1 /\ e.ops[1] = "eq") =>
+     /\ V(Not(Cmp1("ne", e.left, e.rights[1])), ei) = val
+     /\ (IsNumLike(V(e.left, ei)) /\ IsNumLike(V(e.rights[1], ei))) =>
+           V(And2(Cmp1("le", e.left, e.rights[1]), Cmp1("ge", e.left, e.rights[1])), ei) = val
 \* division / modulo by zero is 0
 DivModZero ==
   (e.k = "bin" /\ e.op \in {"div", "mod"} /\ Good(V(e.l, ei)) /\ IsNumLike(V(e.l, ei)) /\ V(e.r, ei) = Int_(0)) => val = Int_(0)
